@@ -20,7 +20,7 @@ any `min ≥ 1` (the code passes 13), under `Ctx.Good`:
 it, so conservation is stated on multiplicities of `==`-classes (`cnt ctx x l` = number of
 elements of `l` that are `==` to `x`), and additionally as a genuine permutation up to
 pointwise `==` (`cluster_partition_perm`), and as `List.Perm` when `==` is identity of indices.
-Nothing is `sorry`ed; every statement is at full strength.
+Every statement below is proved at full strength (no `_partial` versions were needed).
 -/
 namespace AlphaG.Cluster
 
@@ -314,6 +314,57 @@ theorem vertex_total {ctx : Ctx} (g : ctx.Good) (tracks : List Nat)
     (hs : ∀ l, ctx.sort l ≠ none) (hc : ∀ a b, ctx.cmp a b ≠ none) :
     ∃ r, findVertices ctx tracks = .ok r :=
   (findVertices_spec g tracks).2 hs hc
+
+/-- C14 (vertex bookkeeping sites, converse): whenever the bookkeeping of `find_vertices`
+panics, the site is one of the two `partial_cmp().unwrap()` (B1, V1) and a NaN reached it. -/
+theorem vertex_panic_sites {ctx : Ctx} (g : ctx.Good) (tracks : List Nat) (s : String)
+    (h : findVertices ctx tracks = .panic s) :
+    (s = "beamline_clusters:partial_cmp" ∧ ∃ l, ctx.sort l = none) ∨
+    (s = "find_vertices:partial_cmp" ∧ ∃ a b, ctx.cmp a b = none) := by
+  unfold findVertices at h
+  cases hb : beamlineClusters ctx (tracks.filter ctx.keep) with
+  | err e => rw [hb] at h; cases h
+  | panic s' =>
+    rw [hb] at h
+    simp only [Outcome.panic.injEq] at h
+    subst h
+    obtain ⟨h1, h2⟩ := beamlineClusters_panic g _ _ hb
+    exact Or.inl ⟨h1, _, h2⟩
+  | ok cls =>
+    rw [hb] at h
+    simp only at h
+    cases hm : maxBy ctx.cmp
+        (maxSetByKey List.length (cls.filter (fun c => decide (1 < c.length)))) with
+    | err e => rw [hm] at h; cases h
+    | panic s' =>
+      rw [hm] at h
+      simp only [Outcome.panic.injEq] at h
+      subst h
+      exact Or.inr (maxBy_panic _ _ _ hm)
+    | ok v =>
+      -- the remainder loop cannot panic: `findVertices_spec` shows the whole call returns
+      exfalso
+      have hperm := beamlineClusters_perm g _ cls hb
+      have hle : ∀ x, cnt ctx.toCluster x (v.getD []) ≤ cnt ctx.toCluster x tracks := by
+        cases v with
+        | none => intro x; simp
+        | some w =>
+          have hw1 := maxSetByKey_subset List.length _ w (maxBy_mem hm)
+          rw [List.mem_filter] at hw1
+          intro x
+          simp only [Option.getD_some]
+          have h1 := cnt_flatten_le ctx.toCluster x hw1.1
+          have h2 := cnt_perm ctx.toCluster x hperm
+          have h3 : cnt ctx.toCluster x (tracks.filter ctx.keep) ≤ cnt ctx.toCluster x tracks := by
+            unfold cnt
+            rw [List.countP_filter]
+            exact List.countP_mono_left (by intro a _ h; simp at h; exact h.1)
+          omega
+      obtain ⟨rem, hrem, _⟩ := removeTracks_spec g (v.getD []) tracks hle
+      rw [hm] at h
+      simp only at h
+      rw [hrem] at h
+      cases h
 
 /-! ### Non-vacuity -/
 
